@@ -96,6 +96,26 @@ def rule_CY(ctx, tier):
         inner = a
         while isinstance(inner, tuple) and inner and inner[0] == "call" and inner[1].split("::")[-1] in ("map_err", "or_else") and inner[2]:
             inner = og.strip(inner[2][0])
+        # `aead_result.map_err(..).and_then(|bytes| deserialize(&bytes).map_err(..))`: the closure's result with its
+        # parameter bound to the Ok payload of the receiver
+        if isinstance(inner, tuple) and inner and inner[0] == "call" and inner[1].split("::")[-1] == "and_then" and len(inner[2]) == 2 \
+                and isinstance(inner[2][1], tuple) and inner[2][1][0] == "closure" and inner[2][1][1] in P.bodies:
+            recv = og.strip(inner[2][0])
+            while isinstance(recv, tuple) and recv and recv[0] == "call" and recv[1].split("::")[-1] in ("map_err",) and recv[2]:
+                recv = og.strip(recv[2][0])
+            cid = inner[2][1][1]
+            cret = og.strip(ctx.og.local(P.bodies[cid], 0))
+            payload = ("proj", recv, ("v:Ok", "f:0"))
+
+            def bind(x):
+                if not isinstance(x, tuple) or not x:
+                    return x
+                if x[0] == "param" and x[1] == cid and x[2] == 2:
+                    return payload
+                return tuple(bind(y) if isinstance(y, tuple) else y for y in x)
+            inner = bind(cret)
+            while isinstance(inner, tuple) and inner and inner[0] == "call" and inner[1].split("::")[-1] in ("map_err", "or_else") and inner[2]:
+                inner = og.strip(inner[2][0])
         good = False
         if isinstance(inner, tuple) and inner and inner[0] == "call" and inner[1] == "bitcoin::consensus::deserialize" and inner[2]:
             src = _peel(inner[2][0], "as_ref", "deref", "as_slice", "borrow")
